@@ -15,13 +15,13 @@ PID = 'C17'
 
 TLC_FIELDS = ('term', 'base', 'case', 'bo', 'bb', 'locs', 'exc')
 
-REQUIRED_TAGS = ['Eval', 'N', 'If', 'Map', 'For', 'Foreach', 'While', 'Let', 'Format', 'Def', 'Call', 'Peek', 'Pokes',
+REQUIRED_TAGS = ['Eval', 'N', 'If', 'Map', 'For', 'Foreach', 'While', 'Let', 'LetS', 'Format', 'Def', 'Call', 'Peek', 'Pokes',
                  'Pushs', 'Pops', 'Chr', 'Str', 'Space', 'Pc', 'Pre', 'Sub', 'Text', 'Seq',
                  'e:m', 'e:pre', 'e:var', 'e:sub'] + ['op:' + o for o in macrodrv.BINOPS]
 REQUIRED_SYNTAX = ['ints:bare', 'ints:paren', 'ints:keyword', 'ints:blank', 'ints:spaces', 'lit:hex', 'field', 'nested-in-int',
-                   'nested-let-in-int', 'pre-expand', 'str:(1', 'str:(n', 'str:[1', 'str:[n', 'str:{1', 'str:{n', 'str:alt1',
+                   'nested-let-in-int', 'nested-brace-in-int', 'pre-expand', 'str:(1', 'str:(n', 'str:[1', 'str:[n', 'str:{1', 'str:{n', 'str:alt1',
                    'str:alt', 'str:alt-same', 'str:alt-space', 'expr:spaces', 'expr:precedence', 'def:fields',
-                   'while:padded-body']
+                   'while:padded-body', 'let:string', 'def:string-params', 'def:string-default', 'call:string-default']
 REQUIRED_NOTES = ['If:True:1', 'If:False:1', 'If:True:2', 'If:False:2', 'Map:hit', 'Map:default', 'For:n=0', 'For:n=1',
                   'For:n=2', 'For:n=3', 'Foreach:n=1', 'Foreach:n=2', 'Foreach:n=3', 'While:n=0', 'While:n=1', 'While:n=2',
                   'N:hex', 'N:dec', 'Eval:base2', 'Eval:base10', 'Eval:base16', 'Pre:If', 'Pre:Map'] + \
